@@ -1070,6 +1070,12 @@ def sym_place(fn, place, depth=0):
             return ('phi', '%s%s' % (nm, ''.join(proj)), local)
         return ('phi', '_%d%s' % (local, ''.join(proj)), local)
     kind, site = ds[0]
+    return sym_def(fn, kind, site, proj, depth)
+
+
+def sym_def(fn, kind, site, proj=(), depth=0):
+    """Symbolic value assigned by ONE definition site of a local (an assignment or a call)."""
+    proj = list(proj)
     n = site.node
     if kind == 'assign':
         rv = n[2]
